@@ -10,6 +10,7 @@
    theorems are parametric in the contracts of the buffered writer / reader (C05 / C04). *)
 From GV Require Import Lib.Bytes Lib.Res Gen.Consts Spec.Log Model.Binary Model.BufWriter Model.BufReader
      Model.StreamCodec Model.Message Spec.Wire Proofs.BinaryP Proofs.MessageP Proofs.StreamWriterP Proofs.StreamReaderP.
+From GV Require Model.FastCodec Proofs.MessageFullP.
 Open Scope N_scope.
 
 (* ---------- msg_writers_agree: all three writers emit enc_msg (type masked to 16 bits) ---------- *)
@@ -140,6 +141,28 @@ Proof. intros skipf e b H. now apply appex_read_total. Qed.
 Theorem C12_appex_read_fuel : forall skipf e b, skip_ok skipf -> (forall s t, skipf s t <> Err e_fuel) ->
   snd (appex_read skipf e b) <> Err e_fuel.
 Proof. exact appex_read_fuel_ok. Qed.
+
+(* ... and closed for the skipper the code calls: with the model of thrift.Binary.Skip itself (Model/Skip.v,
+   the subject of C02/C03/C08, containers and the depth limit included) as the skip function, on every
+   byte string: no panic, no over-report, the loop fuel is never exhausted *)
+Theorem C12_appex_read_no_panic_full : forall e b, wf b ->
+  safe (snd (appex_read GV.Model.FastCodec.skipf e b)) /\
+  (forall n, snd (appex_read GV.Model.FastCodec.skipf e b) = Ok n -> n <= len b).
+Proof. exact MessageFullP.appex_read_full_no_panic. Qed.
+
+Theorem C12_appex_read_fuel_full : forall e b, wf b ->
+  snd (appex_read GV.Model.FastCodec.skipf e b) <> Err e_fuel.
+Proof. exact MessageFullP.appex_read_full_fuel. Qed.
+
+Theorem C12_unmarshal_no_panic_full :
+  forall (P : Type) (p_read : P -> bytes -> P * res N) b (m0 : P),
+  (forall m s, wf s -> safe (snd (p_read m s))) -> wf b ->
+  safe (unmarshal_fast_msg P p_read GV.Model.FastCodec.skipf b m0).
+Proof. exact MessageFullP.unmarshal_full_no_panic. Qed.
+
+Theorem C12_unmarshal_appex_no_panic_full : forall b e0, wf b ->
+  safe (unmarshal_fast_msg appex (appex_read GV.Model.FastCodec.skipf) GV.Model.FastCodec.skipf b e0).
+Proof. exact MessageFullP.unmarshal_appex_full_no_panic. Qed.
 
 (* ApplicationException's own three methods satisfy the payload contract, for any target *)
 Theorem C12_appex_contract : forall skipf e0 e rest s,
